@@ -99,6 +99,20 @@ func lockCall(s ast.Stmt) (recv ast.Expr, kind string, ok bool) {
 	return sel.X, sel.Sel.Name, true
 }
 
+// unlockCall recognises X.Unlock() / X.RUnlock().
+func unlockCall(e ast.Expr) (recv ast.Expr, kind string, ok bool) {
+	c, isC := e.(*ast.CallExpr)
+	if !isC || len(c.Args) != 0 {
+		return nil, "", false
+	}
+	sel, isS := c.Fun.(*ast.SelectorExpr)
+	if !isS || (sel.Sel.Name != "Unlock" && sel.Sel.Name != "RUnlock") {
+		return nil, "", false
+	}
+
+	return sel.X, sel.Sel.Name, true
+}
+
 func addr(e ast.Expr) ast.Expr {
 	// a bare identifier is already a pointer receiver (t, s); a field needs &
 	if _, ok := e.(*ast.Ident); ok {
@@ -137,6 +151,24 @@ func instrList(list []ast.Stmt) []ast.Stmt {
 			out = append(out, call(kind, addr(recv), lit(exprStr(recv)+"."+kind)))
 
 			continue
+		}
+		// X.Unlock() / X.RUnlock() -> verifsched.Unlock(X) / RUnlock(X): not scheduling points, but the lock state
+		// is tracked so that releasing a lock that is not held is a recoverable panic of the schedule (the
+		// runtime's "Unlock of unlocked RWMutex" is a fatal error that would kill the harness)
+		if es, ok := s.(*ast.ExprStmt); ok {
+			if recv, kind, ok := unlockCall(es.X); ok {
+				out = append(out, call(kind, addr(recv)))
+
+				continue
+			}
+		}
+		if ds, ok := s.(*ast.DeferStmt); ok {
+			if recv, kind, ok := unlockCall(ds.Call); ok {
+				ds.Call = &ast.CallExpr{Fun: &ast.SelectorExpr{X: ast.NewIdent("verifsched"), Sel: ast.NewIdent(kind)}, Args: []ast.Expr{addr(recv)}}
+				out = append(out, ds)
+
+				continue
+			}
 		}
 		var header []ast.Node
 		switch v := s.(type) {
